@@ -71,6 +71,14 @@ func (o Op) String() string {
 		return fmt.Sprintf("p%d u%d=resolve[way%d](u%d,%s)", o.P, o.D, o.W, o.H, q(string(o.A)))
 	case "clone":
 		return fmt.Sprintf("p%d u%d=u%d.Clone()", o.P, o.D, o.H)
+	case "setsp":
+		r := fmt.Sprintf("p%d u%d.SetSearchParams(s%d)", o.P, o.H, o.W)
+		if o.D != 0 {
+			r += fmt.Sprintf("; s%d=u%d.SearchParams()", o.D, o.H)
+		}
+		return r
+	case "sp.clone":
+		return fmt.Sprintf("p%d s%d=s%d.Clone()", o.P, o.D, o.H)
 	case "getsp":
 		return fmt.Sprintf("p%d s%d=u%d.SearchParams()", o.P, o.D, o.H)
 	}
